@@ -1,4 +1,5 @@
 import Ivy.L2.SignalProofs
+import Ivy.L1.TablesAgree
 /-!
 # C10 — iv_signal: every delivery reaches the interests with the documented fan-out
 
@@ -155,5 +156,15 @@ example : (run (State.init 1)
      .sigThread 1 10, .sigProc 1, .posted 1, .evEnd 0, .evRead 0, .evClear 0, .evEnd 0,
      .unreg 0 0, .fork 2, .sigThread 0 12]).map (·.2) =
     some [.disp 10 true, .disp 12 true, .post 0, .post 0, .disp 10 false] := by decide
+
+/-- T-gen (finite table, re-checked against /repo's current code on every run): `iv_signal_compare` orders all
+pairs of the 8-object universe (both signal numbers, exclusive or not, this-thread or not, address order = id order) as
+the model's `less` does -/
+theorem signal_compare_table_agrees :
+    (∀ r ∈ Ivy.Generated.Tables.signalCompare,
+      Ivy.L1.TablesAgree.cmp3 Ivy.L1.TablesAgree.sigState r.1 r.2.1 = r.2.2) ∧
+    (∀ i ∈ List.range Ivy.Generated.Tables.signalObjs.length, ∀ j ∈ List.range Ivy.Generated.Tables.signalObjs.length,
+      (i, j, Ivy.L1.TablesAgree.cmp3 Ivy.L1.TablesAgree.sigState i j) ∈ Ivy.Generated.Tables.signalCompare) :=
+  Ivy.L1.TablesAgree.signal_compare_table_agrees
 
 end Ivy.Props.C10
